@@ -807,7 +807,7 @@ pub trait StoreFor<T: Storable>: Configurable + private::StoreCallbacks<T> {
     #[inline]
     fn has(&self, item: impl Request<T>) -> bool {
         if let Some(handle) = item.to_handle(self) {
-            self.store().get(handle.as_usize()).is_some()
+            matches!(self.store().get(handle.as_usize()), Some(Some(_)))
         } else {
             false
         }
